@@ -24,6 +24,8 @@ SETS = [
     (("TR", "S20"), ("ST2", "T2"), ("FILL", True)),
     # big moves: Supertrend flips direction, so its long/short fields come and go (readings with holes)
     (("ST2", None), ("RSI2", None), ("SIGMA", "REL:PMud")),
+    # a Hexital with its own timeframe: one member on the default candles, one explicitly on the same timeframe, one coarser
+    (("EMA2", None), ("SMA2", "T2"), ("OBV", "T4"), ("HTF", "T2")),
     # dots in a user supplied suffix are sanitised like generated ones
     (("EMA2dot", None), ("positive", "T2")),
 ]
@@ -123,8 +125,12 @@ def trailing(ind, name):
 def build(members):
     from hexital import Hexital
     fill = any(l == "FILL" for l, _ in members)
-    inds = [make(BY_LABEL[l], **({"timeframe": t} if t else {})) for l, t in members if l not in ("FILL", "SIGMA")]
-    return Hexital("h", [], inds, **({"timeframe_fill": True} if fill else {}))
+    inds = [make(BY_LABEL[l], **({"timeframe": t} if t else {})) for l, t in members if l not in ("FILL", "SIGMA", "HTF")]
+    kw = {"timeframe_fill": True} if fill else {}
+    htf = next((t for l, t in members if l == "HTF"), None)
+    if htf:
+        kw["timeframe"] = htf
+    return Hexital("h", [], inds, **kw)
 
 
 def explore(item):
